@@ -23,6 +23,7 @@
 #include <set>
 #include <sstream>
 #include <string>
+#include <utility>
 #include <unordered_set>
 #include <vector>
 
@@ -234,6 +235,65 @@ namespace xsv
         return o;
     }
 
+    // ------------------------------------------------------------------ fault injection for the pipeline self-test
+    // XSV_INJECT="op:type" (type "*" = every type): after the real kernel ran, lane 0 of its first output is corrupted
+    // when a hash of the first input element and of the immediates is even.  tools/selftest_inject.py then expects every
+    // check that claims the operation to end with a confirmed VIOLATION: a worker that does not judge the operation, or
+    // a record from which the replay cannot rebuild the case, shows up as exit 0 / exit 2.  Never set by a check.
+    namespace inject
+    {
+        struct Slot
+        {
+            xsv_fn real = nullptr;
+            unsigned elem_bytes = 0;
+        };
+        inline Slot* slots()
+        {
+            static Slot s[64];
+            return s;
+        }
+        template <int I>
+        void tramp(const xsv_args* a)
+        {
+            const Slot& sl = slots()[I];
+            uint64_t h = 0x9e3779b97f4a7c15ull ^ (uint64_t)a->imm[0] * 0xff51afd7ed558ccdull ^ (uint64_t)a->imm[1] * 0xc4ceb9fe1a85ec53ull;
+            if (a->in[0])
+                for (unsigned i = 0; i < sl.elem_bytes && i < 8; ++i)
+                    h = (h ^ ((const unsigned char*)a->in[0])[i]) * 0x100000001b3ull;
+            sl.real(a);
+            h ^= h >> 29;
+            if ((h & 1) == 0 && a->out[0])
+            {
+                unsigned char* o = (unsigned char*)a->out[0];
+                o[0] ^= 0x01;
+                if (sl.elem_bytes > 1)
+                    o[sl.elem_bytes - 1] ^= 0x40;
+            }
+        }
+        template <int... I>
+        inline xsv_fn tramp_at(int k, std::integer_sequence<int, I...>)
+        {
+            static const xsv_fn t[] = { &tramp<I>... };
+            return t[k];
+        }
+        inline const xsv_entry* wrap(const xsv_entry* e)
+        {
+            static int used = 0;
+            static const char* spec = getenv("XSV_INJECT");
+            if (!spec || used >= 64)
+                return e;
+            const std::string sp = spec, key = std::string(e->op) + ":" + e->type, any = std::string(e->op) + ":*";
+            if (sp != key && sp != any)
+                return e;
+            slots()[used].real = e->fn;
+            slots()[used].elem_bytes = e->elem_bytes;
+            xsv_entry* c = new xsv_entry(*e);
+            c->fn = tramp_at(used, std::make_integer_sequence<int, 64>());
+            ++used;
+            return c;
+        }
+    }
+
     // ------------------------------------------------------------------ targets
     struct Target
     {
@@ -285,7 +345,7 @@ namespace xsv
             size_t n = 0;
             const xsv_entry* e = tab(&n);
             for (size_t i = 0; i < n; ++i)
-                t.ops[std::string(e[i].op) + ":" + e[i].type] = &e[i];
+                t.ops[std::string(e[i].op) + ":" + e[i].type] = inject::wrap(&e[i]);
             t.tick_ctl = (void (*)(int, long*))dlsym(t.handle, "xsv_tick_ctl");
             r.push_back(t);
         }
@@ -485,6 +545,10 @@ namespace xsv
     // case that was executing (DESIGN 2.1: xsimd's asserts are part of the oracle).
     inline void crash_handler(int sig)
     {
+        static volatile sig_atomic_t entered = 0;
+        if (entered)
+            _exit(3); // a fault while reporting a fault: never loop
+        entered = 1;
         Context* c = g_ctx();
         if (c && c->current_valid)
         {
